@@ -3,6 +3,7 @@
 PROP_MODULES = {
     'C03': ['contracts.builders', 'contracts.shared_grid', 'contracts.c03_grid'],
     'C04': ['contracts.builders', 'contracts.shared_grid', 'contracts.c03_grid', 'contracts.c04_meta', 'contracts.c08_creator'],
+    'C02': ['contracts.builders', 'contracts.shared_grid', 'contracts.c03_grid', 'contracts.c04_meta', 'contracts.c16_limits', 'contracts.c02_addresses'],
     'C16': ['contracts.builders', 'contracts.shared_grid', 'contracts.c03_grid', 'contracts.c04_meta', 'contracts.c16_limits'],
     'C13': ['contracts.builders', 'contracts.shared_grid', 'contracts.c03_grid', 'contracts.c04_meta', 'contracts.c08_creator', 'contracts.c13_expiry'],
     'C08': ['contracts.builders', 'contracts.shared_grid', 'contracts.c03_grid', 'contracts.c04_meta', 'contracts.c08_creator'],
@@ -30,6 +31,15 @@ NOT_APPLICABLE = {
 }
 
 MANIFEST_META = {
+    'C02': dict(
+        text='Proof on the real code of the address arithmetic between the advertised description objects and the served '
+             'tiles: public->internal level mapping (profile shift, sqrt2 skip) and its inverse, TMS tile_sets advertise '
+             'exactly the levels internal_tile_coord serves (lemma), origin flip is an involution that preserves the ground '
+             'rectangle when supports_access_with_origin offers it, origin_tile, and for every WMTS TileMatrix: identifier = '
+             'level name, matrix size = grid size, ScaleDenominator <-> resolution, TopLeftCorner = north-west corner of the '
+             'tile block; lemmas compose these to "client rectangle = served rectangle".',
+        note='the XML templates (TMS Origin/BoundingBox, WMS-C TileSet) and KML link generation are outside; the composition '
+             'lemmas restate contract clauses by hand; floats as reals; known finding S9 (WMTS on sqrt2 grids)'),
     'C16': dict(
         text='Proof on the real code that requests are validated before they cost anything: limit_tile answers non-None '
              'exactly for in-grid addresses (int and named levels, negative and huge values, all grids); the public->internal '
